@@ -31,6 +31,9 @@ func alpha(r *runner.Run) qcheck.Alpha {
 
 func TestCheck(t *testing.T) {
 	r := runner.Start("C13", "model_checking")
+	if qcheck.HandleReplay(r, nil, []qcheck.LockSpec{{Name: "c13", ScaleCompaction: true}}) {
+		r.Finish()
+	}
 	deadline := r.Deadline(80*time.Second, 14*time.Minute)
 	cfgs := []qmodel.Config{
 		{},
